@@ -266,6 +266,12 @@ impl Obs {
     pub fn frozen(&self) -> bool {
         self.frozen
     }
+    /// a throw-away, frozen Obs (for re-using a predicate without recording anything)
+    pub fn frozen_scratch() -> Obs {
+        let mut o = Obs::new();
+        o.freeze();
+        o
+    }
     pub fn freeze(&mut self) {
         self.frozen = true;
     }
